@@ -15,7 +15,7 @@ import (
 func init() {
 	register(&Def{
 		ID: "C08",
-		Explanation: "Structural necessary conditions of 'type-level and representation views obey the strategy', decided as sibling agreement across the representation switches of bindnode: (matrix) the Kind() method of the representation node is itself the table 'strategy S presents as kind K(S)'; every strategy whose representation kind differs from its type-level kind (stringjoin, stringprefix, tuple, listpairs, int enum) or is dynamic (kinded) must be handled explicitly - by a type-switch arm - in Length and in the readers and writers of kind K(S); (finishhook) every representation-level assign reaches its finish hook or delegates; (maybeptr) the Go type inferred for an optional/nullable position is always a pointer, whatever the kind of the element; (generators) every exported generator constructor of schema/gen/go is referenced from Generate's dispatch and each dispatch default panics. " +
+		Explanation: "Structural necessary conditions of 'type-level and representation views obey the strategy', decided as sibling agreement across the representation switches of bindnode: (matrix) the Kind() method of the representation node is itself the table 'strategy S presents as kind K(S)'; every strategy whose representation kind differs from its type-level kind (stringjoin, stringprefix, tuple, listpairs, int enum) or is dynamic (kinded) must be handled explicitly - by a type-switch arm - in Length and in the readers and writers of kind K(S); (finishhook) every representation-level assign reaches its finish hook or delegates; (maybeptr) the Go type inferred for an optional/nullable position is always a pointer, whatever the kind of the element; (generators) every exported generator constructor of schema/gen/go is referenced from Generate's dispatch and each dispatch default panics.  (nullsame) the routes of bindnode that answer Null / Absent for a nil Go value decide it under the same tests." +
 			"That each arm computes the right view, build-route equality and encode/decode of representations are value-level and not decided.",
 		NotCovered: []string{"that each arm computes the right view", "type-level vs representation builder produce the same node (as values)", "encode/decode of representations", "generated code (templates are strings; only the dispatch table is checked)"},
 		Trusted:    []string{"go/ssa, go/types"},
@@ -354,7 +354,7 @@ func runC08(c *core.Ctx) {
 		}
 	}
 
-	c.Rule("C08.nullsame", "the read routes of one node agree on what is null: in bindnode, every place that answers datamodel.Null (or datamodel.Absent) for a field or element because the schema says nullable (optional) and the Go value is nil decides it under the same kind of tests - a route that asks one question more (or less) than its siblings reads the same value differently by look-up and by iteration", 4)
+	c.Rule("C08.nullsame", "the read routes of one node agree on what is null: in bindnode, every place that answers datamodel.Null (or datamodel.Absent) for a field or element because the schema says nullable (optional) and the Go value is nil decides it under the same kind of tests - a route that asks one question more (or less) than its siblings reads the same value differently by look-up and by iteration (a comparison among the sites that have this shape: no floor)", 0)
 	{
 		type site struct {
 			fn   *ssa.Function
@@ -387,7 +387,7 @@ func runC08(c *core.Ctx) {
 					if e.From.Parent() != fn || !core.EdgeDominates(e, ret.Block()) {
 						continue
 					}
-					for w := range core.BackSlice(core.BlockIf(e.From).Cond, core.SliceOpts{Local: true}) {
+					for w := range core.BackSlice(core.BlockIf(e.From).Cond, core.SliceOpts{}) {
 						if cl, ok := w.(*ssa.Call); ok {
 							if o := core.CalleeObj(cl); o != nil {
 								asked[o.Name()] = true
